@@ -188,6 +188,13 @@ def _heading_text(r):
             parts.append(r.choice(["[" + w + "][r]", "[" + w + "][R]", "[r]", "[" + w + "][]"]))
             plain.append("r" if parts[-1] == "[r]" else (w if not parts[-1].endswith("[]") else "[" + w + "][]"))
             continue
+        elif k < 0.49 and parts:
+            # inline HTML of every kind (never first, where it could open an HTML block): shown escaped when escaping is on,
+            # removed from the entry text when it is off
+            tag = r.choice(["<b>", "</b>", "<?php x ?>", "<!DOCTYPE html>", "<![CDATA[ y ]]>", "<!-- c -->", "<span class=\"k\">", "<em-x a=1>", "<!ELEMENT e>"])
+            parts.append(tag)
+            plain.append("\x01" + tag + "\x02")
+            continue
         elif k < 0.55:
             parts.append("*" + w + "*")
         elif k < 0.65:
@@ -359,7 +366,11 @@ def check_doc(m, doc, fails):
         fails.append({"input": doc, "kind": "exception", "got": "%s: %s" % (type(e).__name__, e)})
         return
     heads = _heads(doc)
-    esc = (lambda s: m.escape(s)) if doc["escape"] else (lambda s: s.replace("&", "&amp;").replace("<", "&lt;"))
+    import re as _re
+    if doc["escape"]:
+        esc = lambda s: m.escape(s.replace("\x01", "").replace("\x02", ""))  # noqa: E731
+    else:
+        esc = lambda s: _re.sub("\x01[^\x02]*\x02", "", s).replace("&", "&amp;").replace("<", "&lt;")  # noqa: E731
     if doc["mode"] == "hook":
         lo, hi = doc["range"]
         elig = [b for b in heads if lo <= b["level"] <= hi]
@@ -426,7 +437,7 @@ def oracle(ctx, extra):
             "failures": fails, "exhaustive": False,
             "rule": "render_toc_ul: ALL level sequences over 1..6 up to length %d plus random long ones (also levels "
                     "outside 1..6), output parsed by a strict ul/li/a reader and compared with the closest-preceding-"
-                    "shallower tree; documents: random mixes of atx/setext headings with inline markup (star and underscore emphasis, code, inline and reference links, backslash escapes, & and <), paragraphs, "
+                    "shallower tree; documents: random mixes of atx/setext headings with inline markup (star and underscore emphasis, code, inline and reference links, backslash escapes, & and <, inline HTML of every kind: tags, comments, processing instructions, declarations, CDATA), paragraphs, "
                     "headings nested in quotes/lists (must be ignored), toc sections with ranges, via add_toc_hook and "
                     "via the TableOfContents directive, escape on/off; a sixth of the documents converted with a file context and including one Markdown file with two headings one to three times (each inclusion contributes its headings); ids, order, listed items, entry text checked; "
                     "non-trivial = at least two distinct levels / at least one heading" % ctx.n(5, 7),
